@@ -1,9 +1,136 @@
-(* C20 -- stub while the correspondence is being brought up *)
+(* C20 -- Verified negative sampling never returns an observed interaction without warning.
+   Property theorems only; each is closed by `exact <lemma>` and followed by Print Assumptions.
+   The budget test, the budget decrement, the presence of the exhaustion warning, the layout of the
+   combined key and the population of each weighting are the GENERATED ones (Gen/C20_shape.v), so
+   these statements are re-checked against the source on every run.
+
+   Reading the model: `sample m w verify att n rows ds` is
+     sample_negatives(rows, weighting=w, n=n, verify=verify, max_attempts=att, rng=<the stream ds>)
+   on the matrix m (column count, sorted (row, column) table).  The result lists the output COLUMNS
+   (one for n=None, else n; out[j][i] is the cell of request row i, column j), the counts carried by
+   the DataWarnings in order of emission, and the unused rest of the stream.  All statements hold for
+   every draw stream whose elements are in range (the generator contract).
+
+   Property text -> theorem:
+   * "the sampled negatives have the requested shape and are valid column numbers"
+                                                        -> shape_and_range
+   * "with verification on each sampled column is not an observed interaction of its row unless a
+      data warning reports that verified negatives could not be found"
+                                                        -> verified_or_warned, warning_counts_exact
+                                                           (+ membership_test_exact, key_injective: the
+                                                           boolean key test IS membership in the data)
+   * "rows for which unobserved columns are plentiful receive true negatives without any warning"
+                                                        -> failure_needs_all_hits (a cell stays observed only
+                                                           if each of its att+1 draws hit an observed column),
+                                                           single_row_failure_iff (the exact failure event).
+        PARTIAL: the probability of that event ((k/N)^(att+1) for k observed of N columns under an
+        ideal uniform source) is arithmetic on top of single_row_failure_iff and is not stated as a
+        theorem about the real generator (PCG64 is outside the model).
+   * "Popularity weighting only draws columns that occur in the data"
+                                                        -> popular_draws_occur
+   * "every eligible column can be drawn"               -> every_eligible_reachable *)
 From Coq Require Import ZArith List Bool.
-From LK Require Import Gen.C20_shape Model.C20_sampling Proofs.C20_key.
+From LK Require Import Gen.C20_shape Model.C20_sampling Proofs.C20_key Proofs.C20_resample Proofs.C20_sample
+  Proofs.C20_history Proofs.C20_reach Proofs.C20_main.
+Import ListNotations.
 Open Scope Z_scope.
+
 Theorem key_injective : forall r c r' c',
   0 <= r < B32 -> 0 <= c < B32 -> 0 <= r' < B32 -> 0 <= c' < B32 ->
   key r c = key r' c' -> r = r' /\ c = c'.
 Proof. exact key_injective_l. Qed.
 Print Assumptions key_injective.
+
+(* _check_negatives answers exactly "is (row, column) an interaction of the data" *)
+Theorem membership_test_exact : forall m rows col i r c,
+  wf m -> 0 <= r < B32 -> in_cols m c ->
+  nth_error rows i = Some r -> nth_error col i = Some c ->
+  exists b, nth_error (check_negatives m rows col) i = Some b /\ (b = true <-> observed m r c).
+Proof. exact check_negatives_spec_l. Qed.
+Print Assumptions membership_test_exact.
+
+Theorem shape_and_range : forall m w verify att n rows ds out warns rest,
+  wf m -> draws_ok m w ds ->
+  sample m w verify att n rows ds = Ok (out, warns, rest) ->
+  length out = ncolumns n /\ Forall (fun col => length col = length rows) out /\
+  Forall (Forall (in_cols m)) out.
+Proof. exact shape_and_range_l. Qed.
+Print Assumptions shape_and_range.
+
+Theorem verified_or_warned : forall m w att n rows ds out warns rest,
+  wf m -> rows_ok rows -> draws_ok m w ds ->
+  sample m w true att n rows ds = Ok (out, warns, rest) ->
+  warns = [] ->
+  forall col i r c, In col out -> nth_error rows i = Some r -> nth_error col i = Some c -> ~ observed m r c.
+Proof. exact verified_or_warned_l. Qed.
+Print Assumptions verified_or_warned.
+
+(* stronger: the warnings account for the returned observed cells exactly, one warning per failing
+   output column at most, and no warning is empty *)
+Theorem warning_counts_exact : forall m w att n rows ds out warns rest,
+  sample m w true att n rows ds = Ok (out, warns, rest) ->
+  observed_cells m rows out = zsum warns /\ Forall (fun x => 0 < x) warns /\ (length warns <= ncolumns n)%nat.
+Proof. exact warning_counts_exact_l. Qed.
+Print Assumptions warning_counts_exact.
+
+(* `resample_h` is `resample` (= _check_negatives_and_resample) carrying, for every position, the
+   columns drawn for it so far, latest first.  Erasing the histories gives the model's result; every
+   draw but the last hit an observed cell; a position is drawn at most att+1 times; and its final
+   column is observed only if all att+1 draws were used -- hence all of them hit. *)
+Theorem failure_needs_all_hits : forall m w fuel att rows cols ds hs warns rest,
+  wf m -> rows_ok rows -> draws_ok m w ds -> length cols = length rows -> Forall (in_cols m) cols ->
+  resample_h m w fuel att rows (map (fun c => [c]) cols) ds = Ok (hs, warns, rest) ->
+  resample m w fuel att rows cols ds = Ok (map hd0 hs, warns, rest) /\
+  Forall2 (fun r h =>
+             (1 <= length h <= 1 + Z.to_nat att)%nat /\
+             Forall (observed m r) (tl h) /\
+             (observed m r (hd0 h) -> length h = (1 + Z.to_nat att)%nat)) rows hs.
+Proof. exact failure_needs_all_hits_l. Qed.
+Print Assumptions failure_needs_all_hits.
+
+(* one row, scalar request: a warning is raised iff the first att+1 draws all stand for observed columns *)
+Theorem single_row_failure_iff : forall m w att r ds out warns rest,
+  wf m -> 0 <= r < B32 -> draws_ok m w ds ->
+  sample m w true att None [r] ds = Ok (out, warns, rest) ->
+  (warns <> [] <-> Forall (fun d => observed m r (col_of m w d)) (firstn (1 + Z.to_nat att) ds)).
+Proof. exact single_row_failure_iff_l. Qed.
+Print Assumptions single_row_failure_iff.
+
+Theorem popular_draws_occur : forall m verify att n rows ds out warns rest,
+  draws_ok m Popular ds ->
+  sample m Popular verify att n rows ds = Ok (out, warns, rest) -> Forall (Forall (occurs m)) out.
+Proof. exact popular_draws_occur_l. Qed.
+Print Assumptions popular_draws_occur.
+
+(* eligible: any column number (uniform) / any column occurring in the data (popularity), not
+   observed for the row.  There is an in-range stream on which the call returns with that column in
+   the chosen cell. *)
+Theorem every_eligible_reachable : forall m w att n rows i j r c,
+  wf m -> rows_ok rows ->
+  nth_error rows i = Some r -> (j < ncolumns n)%nat ->
+  eligible m w c -> ~ observed m r c ->
+  exists ds, draws_ok m w ds /\
+    exists out warns rest col, sample m w true att n rows ds = Ok (out, warns, rest) /\
+      nth_error out j = Some col /\ nth_error col i = Some c.
+Proof. exact every_eligible_reachable_main. Qed.
+Print Assumptions every_eligible_reachable.
+
+(* non-vacuity: 3 x 3 matrix, row 0 fully dense, rows [0; 1; 2; 0], budget 2; the stream is the one
+   PCG64(3) produced in the implementation.  Row 0 exhausts its budget twice over (one warning for two
+   cells); rows 1 and 2 receive true negatives. *)
+Example c20_nonvacuous :
+  let m := {| m_ncols := 3; m_pairs := [(0, 0); (0, 1); (0, 2); (1, 1); (2, 2)] |} in
+  let ds := [2; 0; 0; 0; 0; 2; 2; 1] in
+  wf m /\ rows_ok [0; 1; 2; 0] /\ draws_ok m Uniform ds /\
+  sample m Uniform true 2 None [0; 1; 2; 0] ds = Ok ([[2; 0; 0; 1]], [2], []) /\
+  ~ observed m 1 0 /\ observed m 0 2.
+Proof.
+  cbv zeta. split; [|split; [|split; [|split; [|split]]]].
+  - split; [unfold B32; cbn; split; [discriminate|reflexivity]|].
+    repeat constructor; cbn; try discriminate; reflexivity.
+  - repeat constructor; cbn; try discriminate; reflexivity.
+  - repeat constructor; cbn; try discriminate; reflexivity.
+  - vm_compute. reflexivity.
+  - intros [H|[H|[H|[H|[H|[]]]]]]; discriminate.
+  - right. right. left. reflexivity.
+Qed.
